@@ -44,6 +44,7 @@ def main():
     ap.add_argument('--only', nargs='*')
     ap.add_argument('--budget', type=float, default=None)
     ap.add_argument('--no-write', action='store_true')
+    ap.add_argument('--no-escalate', action='store_true', help='do not fall back to the thorough tier when the quick run misses')
     args = ap.parse_args()
     items = collect(args)
     base = '/dev/shm/pmv-sens-%d' % os.getpid()
@@ -74,6 +75,20 @@ def main():
             ok = (r.returncode == 1 and vio) if it['expect'] == 'detect' else (r.returncode == 0 and not vio)
             row = dict(it, rc=r.returncode, wall=round(dt, 1), result='OK' if ok else 'MISSED' if it['expect'] == 'detect' else 'FALSE-ALARM',
                        rule=rule[0][:160] if rule else '')
+            if it['expect'] == 'detect' and not vio and r.returncode == 0 and not args.no_escalate:
+                # not found inside the quick budget: the thorough tier (same machinery, ten times the budget) decides
+                cmd2 = [os.path.join(VERIF, 'check'), it['prop'], '--tier', 'thorough', '--repo', work, '--no-evidence', '--replay-dir', rdir, '--fail-fast']
+                t1 = time.time()
+                r = sh(cmd2, cwd=VERIF)
+                out = r.stdout.decode()
+                vio = [l for l in out.splitlines() if l.startswith('VIOLATION')]
+                rule = [l.strip() for l in out.splitlines() if l.startswith('  rule=')]
+                row['rc'] = r.returncode
+                row['thorough_wall'] = round(time.time() - t1, 1)
+                if r.returncode == 1 and vio:
+                    row['result'] = 'OK'
+                    row['tier'] = 'thorough (missed by this quick run)'
+                    row['rule'] = rule[0][:160] if rule else ''
             if it['expect'] == 'detect' and vio:
                 rp = vio[0].split('replay=')[1].strip()
                 r1 = sh([os.path.join(VERIF, 'check'), it['prop'], '--replay', rp, '--repo', work], cwd=VERIF)
@@ -110,10 +125,10 @@ def main():
                     'unchanged tree, benign refactors must give exit 0. `own` = my mutants (mutants/*.patch), `sub-agent` = independently seeded '
                     'changes (seeded/<id>/). Regenerate with `tools/sensitivity.py` (all) or `tools/sensitivity.py --only <name>...` (updates those rows).\n\n')
             f.write('%d changes: %d as expected.\n\n' % (len(ordered), sum(1 for r in ordered if r['result'] == 'OK')))
-            f.write('| change | origin | property | expectation | exit | wall s | result | replay on mutant / clean | first rule hit | run at |\n|---|---|---|---|---|---|---|---|---|---|\n')
+            f.write('| change | origin | property | expectation | exit | wall s | result | tier | replay on mutant / clean | first rule hit | run at |\n|---|---|---|---|---|---|---|---|---|---|---|\n')
             for r in ordered:
-                f.write('| %s | %s | %s | %s | %s | %s | %s | %s / %s | %s | %s |\n' % (
-                    r['name'], r['origin'], r['prop'], r['expect'], r.get('rc'), r.get('wall'), r['result'], r.get('replay_on_mutant', '-'),
+                f.write('| %s | %s | %s | %s | %s | %s | %s | %s | %s / %s | %s | %s |\n' % (
+                    r['name'], r['origin'], r['prop'], r['expect'], r.get('rc'), r.get('wall'), r['result'], r.get('tier', 'quick'), r.get('replay_on_mutant', '-'),
                     r.get('replay_on_clean', '-'), (r.get('rule') or '').replace('|', '/'), r.get('run_at', '')))
             f.write('\n## What each change does\n\n')
             for r in ordered:
